@@ -133,7 +133,21 @@ func (c *Ctx) endScopeShape(fd *ast.FuncDecl) (bool, string) {
 	}
 	depthDec, loops, pops := 0, 0, 0
 	var popArg, cursorEnd *Lin
-	for idx, s := range fd.Body.List {
+	bodyList := c.expandedStmts(fd)
+	// the named integer results of the scope methods spliced in start at zero
+	for _, it := range c.sortedDecls() {
+		if it.fd.Recv == nil || it.fd.Type.Results == nil || !isNamed(derefType(c.typeOfRecv(it.fd)), bclPath, "scopeCompiler") {
+			continue
+		}
+		for _, f := range it.fd.Type.Results.List {
+			for _, n := range f.Names {
+				if o := c.infoFor(n).Defs[n]; o != nil && isInt(o.Type()) {
+					env[o] = linConst(0)
+				}
+			}
+		}
+	}
+	for idx, s := range bodyList {
 		switch s := s.(type) {
 		case *ast.IncDecStmt:
 			if isDepth(s.X) && s.Tok == token.DEC {
@@ -322,7 +336,7 @@ func (c *Ctx) endScopeShape(fd *ast.FuncDecl) (bool, string) {
 			}
 			popArg = v
 			// localCount must have its final value by now (nothing follows that changes it is checked by position below)
-			if idx != len(fd.Body.List)-1 {
+			if idx != len(bodyList)-1 {
 				return false, "popN must be the last statement"
 			}
 		default:
@@ -350,15 +364,16 @@ func (a *Lin) isConstOrNil() (int64, bool) {
 }
 
 func (c *Ctx) addLocalShape(fd *ast.FuncDecl) (bool, string) {
-	if len(fd.Body.List) < 3 {
+	bodyList := c.expandedStmts(fd)
+	if len(bodyList) < 3 {
 		return false, "too short"
 	}
-	ifs, ok := fd.Body.List[0].(*ast.IfStmt)
+	ifs, ok := bodyList[0].(*ast.IfStmt)
 	if !ok {
 		return false, "does not start with the capacity check"
 	}
 	var lim int64 = -1
-	if atoms, pure := c.nnf(ifs.Cond, true, nil).conjuncts(); pure && len(atoms) == 1 {
+	if atoms, pure := c.nnf(c.unfoldTrivial(ifs.Cond), true, nil).conjuncts(); pure && len(atoms) == 1 {
 		if b, ok := c.boundOf(atoms[0]); ok && c.fieldPath(b.X) == "<parser>.scope.localCount" && b.Lo != nil {
 			lim = *b.Lo // localCount == N or localCount >= N
 		}
@@ -392,7 +407,7 @@ func (c *Ctx) addLocalShape(fd *ast.FuncDecl) (bool, string) {
 		return false, "the capacity check does not return"
 	}
 	incs, depthInit := 0, false
-	for _, s := range fd.Body.List[1:] {
+	for _, s := range bodyList[1:] {
 		switch s := s.(type) {
 		case *ast.IncDecStmt:
 			if c.fieldPath(s.X) == "<parser>.scope.localCount" && s.Tok == token.INC {
@@ -403,6 +418,27 @@ func (c *Ctx) addLocalShape(fd *ast.FuncDecl) (bool, string) {
 				if sel, ok := stripParens(l).(*ast.SelectorExpr); ok && sel.Sel.Name == "depth" && i < len(s.Rhs) {
 					if k, ok := c.intConst(s.Rhs[i]); ok && k == -1 {
 						depthInit = true
+					}
+				}
+				// the whole entry stored at once: locals[n] = local{name: name, depth: -1}
+				if i < len(s.Rhs) {
+					if cl, ok := stripParens(s.Rhs[i]).(*ast.CompositeLit); ok && strings.Contains(c.fieldPath(l), ".locals[") {
+						if stt, isS := c.typeOf(cl).Underlying().(*types.Struct); isS {
+							for j, el := range cl.Elts {
+								name, ve := "", el
+								if kv, isKV := el.(*ast.KeyValueExpr); isKV {
+									if id, isID := kv.Key.(*ast.Ident); isID {
+										name = id.Name
+									}
+									ve = kv.Value
+								} else if j < stt.NumFields() {
+									name = stt.Field(j).Name()
+								}
+								if k, ok := c.intConst(ve); ok && k == -1 && name == "depth" {
+									depthInit = true
+								}
+							}
+						}
 					}
 				}
 			}
